@@ -174,6 +174,8 @@ class Analysis:
                 v = st.mem[k2]
                 ok = True
                 for f in path[i:]:
+                    if v[0] == "P" and isinstance(f, int):
+                        continue  # Box / Unique / NonNull are transparent wrappers around the pointer they hold
                     if v[0] == "O" and isinstance(f, tuple) and f[0] == "v":
                         continue  # downcast of a maybe-Some value: payload below
                     if v[0] == "O" and f == 0:
@@ -589,6 +591,19 @@ class Analysis:
                 if not p[2].t and (same or p[1][0] != "local"):
                     return self.read_cell(st, p[1], (), rt)
                 return ("V", "mem", (p[1], p[2], tstr(rt) if rt else "?"))
+        if fn in ("alloc::boxed::Box::<T>::into_raw", "alloc::boxed::Box::<T, A>::into_raw", "alloc::boxed::Box::<T>::from_raw", "alloc::boxed::Box::<T, A>::from_raw",
+                  "alloc::boxed::Box::<T>::leak", "alloc::boxed::Box::<T, A>::as_mut_ptr", "alloc::boxed::Box::<T, A>::as_ptr"):
+            p = ptr()
+            if p:
+                return p
+        if fn == "core::alloc::Layout::new" and targs:
+            return ("V", "layout", te.size(targs[0]), tstr(targs[0]))
+        if fn in ("alloc::boxed::Box::<T>::new_uninit", "alloc::boxed::Box::<T>::new") and targs:
+            return ("P", ("heapbox", (cs.bb,), tstr(targs[0])), Poly.const(0), None)
+        if fn in ("alloc::boxed::Box::<core::mem::MaybeUninit<T>, A>::assume_init", "alloc::boxed::Box::<core::mem::MaybeUninit<T>>::assume_init"):
+            p = ptr()
+            if p:
+                return p
         if fn == "core::cmp::min":
             a, b = self.as_poly(args[0]), self.as_poly(args[1])
             if a is not None and b is not None:
@@ -659,6 +674,8 @@ class Analysis:
         "core::option::Option::<T>::is_", "core::fmt::Arguments", "core::fmt::rt::Argument", "core::panicking::",
         "core::hint::unreachable_unchecked", "core::alloc::Layout::new", "core::ptr::NonNull::<T>::dangling",
         "core::ptr::NonNull::<T>::as_ptr", "core::ptr::read", "core::iter::Iterator::enumerate", "core::iter::Iterator::zip",
+        "alloc::boxed::Box::<T>::into_raw", "alloc::boxed::Box::<T, A>::into_raw", "alloc::boxed::Box::<T>::from_raw", "alloc::boxed::Box::<T, A>::from_raw",
+        "alloc::boxed::Box::<T>::new_uninit", "alloc::boxed::Box::<core::mem::MaybeUninit<T>", "alloc::alloc::alloc", "alloc::alloc::handle_alloc_error",
         "core::iter::Iterator::map", "core::iter::Iterator::take", "core::mem::forget", "core::mem::transmute_copy",
         "core::ops::Deref::deref",
     )
